@@ -232,6 +232,13 @@ func (w *World) note(kind string, kv ...interface{}) {
 	}
 	if cid, ok := r["cid"].(string); ok {
 		r["c"] = w.symOf(cid)
+		// ck: the connection object itself (a symbol is used again when a client reconnects)
+		id, ok := w.evIDs["cid:"+cid]
+		if !ok {
+			id = len(w.evIDs) + 1
+			w.evIDs["cid:"+cid] = id
+		}
+		r["ck"] = id
 		delete(r, "cid")
 	}
 	for _, key := range [...]string{"evp", "sp", "ep", "rp", "csp", "rcb"} {
